@@ -38,7 +38,7 @@ func closeRing(r [][]model.F) [][]model.F {
 
 func genCase(t *rapid.T) Case {
 	classes := rapid.SampledFrom([]int{
-		gen.SmallInt, gen.SmallInt, gen.Moderate, gen.Big200, gen.SmallInt | gen.Big200, gen.SmallInt | gen.Moderate | gen.Zeros,
+		gen.SmallInt, gen.SmallInt, gen.Moderate, gen.Big200, gen.SmallInt | gen.Big200, gen.SmallInt | gen.Moderate | gen.Zeros, gen.IntEdge, gen.IntEdge | gen.SmallInt,
 	}).Draw(t, "classes")
 	o := gen.TreeOpts{Layouts: layouts, Kinds: kinds, Floats: classes, MaxParts: 4, MaxPts: 6, PEmpty: 25, LongPct: 1, LongMax: 300}
 	g := gen.Tree(t, o)
@@ -56,6 +56,24 @@ func genCase(t *rapid.T) Case {
 			}
 		}
 		forEachCoord(g, shift)
+	}
+	// fixed-point data: every x and y a whole number over the full range of a machine
+	// integer (1e-7 degrees in int32): differences need one more bit than the type,
+	// their products twice as many
+	if rapid.IntRange(0, 11).Draw(t, "fixedpoint") == 0 {
+		lim := math.Ldexp(1, rapid.SampledFrom([]int{31, 31, 15, 53}).Draw(t, "fpbits"))
+		forEachCoord(g, func(c []model.F) {
+			for i := 0; i < len(c) && i < 2; i++ {
+				switch rapid.IntRange(0, 3).Draw(t, "fpwhich") {
+				case 0:
+					c[i] = model.Of(-lim)
+				case 1:
+					c[i] = model.Of(lim - 1)
+				default:
+					c[i] = model.Of(math.Floor(rapid.Float64Range(-lim, lim-1).Draw(t, "fpv")))
+				}
+			}
+		})
 	}
 	// the whole geometry moved to another magnitude by an exact power of two (products
 	// of two ordinates stay finite and normal up to 2^+-500): measures scale with it
